@@ -34,6 +34,9 @@ pub struct Case {
     pub history: Vec<String>,
     pub program: String,
     pub walk: Vec<Move>,
+    /// long haul: ignore `walk`; run forward up to this many steps, all the way back, and forward
+    /// again, comparing a sample of positions (the statement says "any number of forward steps")
+    pub long_haul: Option<usize>,
 }
 
 pub struct Reverse;
@@ -354,6 +357,90 @@ fn probe_kind(st: &mut Stats, kind: &str) {
     }
 }
 
+fn proj_hash(xs: &Xstate) -> u64 {
+    let p = proj(xs);
+    let mut h: u64 = 0xcbf29ce484222325;
+    let mut eat = |s: &str| {
+        for b in s.bytes() {
+            h = (h ^ b as u64).wrapping_mul(0x100000001b3);
+        }
+        h = (h ^ 0xff).wrapping_mul(0x100000001b3);
+    };
+    eat(&format!("{}", p.ip));
+    for v in [&p.data, &p.frames, &p.loops, &p.special, &p.heap] {
+        for x in v.iter() {
+            eat(x);
+        }
+        eat("|");
+    }
+    h
+}
+
+/// Long haul: forward to the end (or `cap` steps), all the way back, forward again; the projection
+/// is compared at every `STRIDE`-th position and at both ends.
+fn run_long(case: &Case, cap: usize, st: &mut Stats) -> Outcome {
+    const STRIDE: usize = 997;
+    let mut xs = match prepare(case) {
+        Ok(xs) => xs,
+        Err(_) => {
+            st.count("probe.program_rejected");
+            return Ok(());
+        }
+    };
+    xs.set_insn_limit(Some(3 * cap + 100)).unwrap();
+    st.count("probe.long_haul_cases");
+    let mut samples: Vec<u64> = Vec::new();
+    let mut n = 0usize;
+    while xs.is_running() && n < cap {
+        if n % STRIDE == 0 {
+            samples.push(proj_hash(&xs));
+        }
+        if xs.next().is_err() {
+            // a failing step is the end of the forward path; what the first rnext after it does is
+            // the walk mode's business
+            st.count("probe.long_haul_ended_by_an_error");
+            return Ok(());
+        }
+        n += 1;
+    }
+    let end = proj_hash(&xs);
+    st.insns += n as u64;
+    st.add("long_haul_steps", n as u64);
+    st.nontrivial = n >= 4;
+    st.log_u64(end);
+    // all the way back
+    let mut i = n;
+    while i > 0 {
+        if let Err(e) = xs.rnext() {
+            return Err(Violation::new("C02.rnext", "long-haul:error", format!("rnext failed {} steps before the end of a {}-step execution: {}", n - i, n, render_err(&e))));
+        }
+        i -= 1;
+        if i % STRIDE == 0 && proj_hash(&xs) != samples[i / STRIDE] {
+            return Err(Violation::new(
+                "C02.restore",
+                "long-haul:rewind",
+                format!("after {} forward steps, {} backward steps do not restore the state of position {}", n, n - i, i),
+            ));
+        }
+    }
+    // forward again
+    let mut j = 0usize;
+    while xs.is_running() && j < n {
+        if j % STRIDE == 0 && proj_hash(&xs) != samples[j / STRIDE] {
+            return Err(Violation::new("C02.replay", "long-haul:replay", format!("replaying a {}-step execution from its start, position {} differs from the original", n, j)));
+        }
+        if xs.next().is_err() {
+            break;
+        }
+        j += 1;
+    }
+    if j != n || proj_hash(&xs) != end {
+        return Err(Violation::new("C02.replay", "long-haul:end", format!("replaying a {}-step execution from its start ended after {} steps or in a different state", n, j)));
+    }
+    st.state(end);
+    Ok(())
+}
+
 fn run_walk(case: &Case, st: &mut Stats) -> Outcome {
     let xs = match prepare(case) {
         Ok(xs) => xs,
@@ -444,6 +531,27 @@ impl Engine for Reverse {
     const STUB: &'static str = "process stdout (captured); emit goes to the intercepted output variable";
 
     fn generate(rng: &mut Rng, _tier: Tier) -> Case {
+        if rng.chance(1, 50_000) {
+            // a history far longer than any generated program: more than a million log entries
+            let n = 100_000 + rng.below(80_000);
+            let program = match rng.below(6) {
+                0 => format!("0 {} 0 do I + loop", n),
+                1 => format!("0 var zzc {} 0 do zzc 1 + ! zzc loop zzc", n),
+                2 => format!(": zzf local a a 1 + ; 0 {} 0 do zzf loop", n / 2),
+                3 => format!("{} 0 do 1 2 swap over rot drop drop drop loop", n / 2),
+                4 => format!("{} 0 do 0 seek u8 drop 3 bits drop loop offset", n / 3),
+                _ => format!("0 {} 0 do I 3 rem case 0 of 1 + endof 1 of 2 + endof drop endcase loop", n / 3),
+            };
+            return Case {
+                input: random_bytes(rng, 16),
+                intercept_emit: true,
+                rec_from_boot: rng.chance(1, 4),
+                history: Vec::new(),
+                program,
+                walk: Vec::new(),
+                long_haul: Some(2_000_000),
+            };
+        }
         let mut f = features(rng);
         let input_len = *rng.pick(&[0usize, 16, 64, 64]);
         let input = random_bytes(rng, input_len);
@@ -562,11 +670,14 @@ impl Engine for Reverse {
                 }
             }
         }
-        Case { input, intercept_emit, rec_from_boot, history, program, walk }
+        Case { input, intercept_emit, rec_from_boot, history, program, walk, long_haul: None }
     }
 
     fn execute(case: &Case, st: &mut Stats) -> Outcome {
-        run_walk(case, st)
+        match case.long_haul {
+            Some(cap) => run_long(case, cap, st),
+            None => run_walk(case, st),
+        }
     }
 
     fn shrink(case: &Case) -> Vec<Case> {
@@ -650,7 +761,8 @@ impl Engine for Reverse {
             "rec_from_boot" => c.rec_from_boot,
             "history" => strs(&c.history),
             "program" => c.program.clone(),
-            "walk" => Json::Arr(walk)
+            "walk" => Json::Arr(walk),
+            "long_haul" => c.long_haul
         }
     }
 
@@ -678,6 +790,7 @@ impl Engine for Reverse {
             history: json_strs(j, "history")?,
             program: j.f_str("program")?,
             walk,
+            long_haul: j.get("long_haul").and_then(|x| x.int()).map(|x| x as usize),
         })
     }
 }
